@@ -172,8 +172,9 @@ impl Prop for SpeedLaw {
         let d1 = est.create(1.0);
         ensure!(d1.len() == n, "speed1-len", "speed 1: {} durations for {} states", d1.len(), n);
         for (i, ((m, _), d)) in c.params.iter().zip(&d1).enumerate() {
-            let (lo, hi) = round_candidates(*m, 1e-9);
-            let ok = *d as f64 == lo.max(1.0) || *d as f64 == hi.max(1.0);
+            // at speed 1 nothing is added to the mean, so the rounding is exact - also on a .5 tie
+            // (round = half away from zero, as in the reference implementation's (size_t)(x + 0.5))
+            let ok = *d as f64 == m.round().max(1.0);
             ensure!(ok, "speed1-round", "speed 1: state {} mean {} got {} frames, expected max(round(mean),1)", i, m, d);
         }
         let f1: usize = d1.iter().sum();
